@@ -100,7 +100,7 @@ def audit(xs, zs, N, r, rtol=1e-9, max_report=5):
         if not (xl < x < xr):
             if len(viol) < max_report:
                 viol.append({"kind": "not-strictly-inside", "k": k + 1, "x": x, "interval": [xl, xr]})
-        lengths.append(float(D[t]))
+        lengths.append(holder(xr - xl, N))      # math.pow, as a scalar computation would do
         M_sel.append(M)
         ev["audited"] += 1
         # insert and update M, z*
